@@ -546,6 +546,19 @@ def vec_eq(a, b, why=None):
     j = isym("_j")
     off = sp.Integer(0)
     for s in z.segs:
+        if sp.sympify(s.n).is_number and int(s.n) <= 32:
+            bad = None
+            for c in range(int(s.n)):
+                t = s.f(sp.Integer(c))
+                if not val_eq(t.items[0], t.items[1]):
+                    bad = t
+                    break
+            if bad is not None:
+                if why is not None:
+                    why.append(f"position {off}+{c}: {show(bad.items[0])}  !=  {show(bad.items[1])}")
+                return False
+            off = sp.expand(off + s.n)
+            continue
         t = s.f(j)
         if not val_eq(t.items[0], t.items[1]):
             if why is not None:
